@@ -37,8 +37,8 @@ ASSUMPTIONS = [
   'quirk kept: the same pair connected twice (either orientation) is merged by the adjacency sets and is not a loop (PV.C09.dup_is_no_loop)',
   'multi-defect designs are compared on accepted/rejected only',
 ]
-RULE = ('legal designs (C08 generator); exactly one injected defect out of 36 kinds (two blocks / block vs net / field vs parent / overlapping slices / '
-        'slice vs whole / two constants / constant vs block / headless net / self connection / cycle of 3+ / each port rule Type 1-9 and loop-back / '
+RULE = ('legal designs (C08 generator); exactly one injected defect out of 38 kinds (two blocks / block vs net / field vs parent / overlapping slices / '
+        'slice vs whole / two constants / constant vs block / second driver on a deep part of a struct that one block writes whole and overrides two levels down / headless net / self connection / cycle of 3+ / each port rule Type 1-9 and loop-back / '
         'wrong operator (=, @=, <<=, for-loop target) in update and update_ff, also as a second write to an object the same block already wrote legally, in either statement order / <<= on slice or field) at a random hierarchy position, plus the duplicated-connection quirk; 2-3 defects; '
         'exhaustive tables; each under K statement orders with side flips; case = (design, order); non-trivial = design has a defect or at least two '
         'user nets; distinct = canonical JSON')
